@@ -4,7 +4,7 @@
    a sample of every run (the in-kernel sample), so the extraction itself is checked. *)
 From Coq Require Import List Ascii String Bool Arith NArith ZArith.
 Require Import Show.
-Require V1 V5 V6 V3 V11 A1 D3 M6 M6b GS R2 R2u AR AR2 AR3 CL TS3 CX SchemaDefs Schema_gen H12 H13 S11 D16 DEB U20.
+Require V1 V5 V6 V3 V11 A1 D3 M6 M6b GS R2 R2u AR AR2 AR3 ARu CL TS3 CX SchemaDefs Schema_gen H12 H13 S11 D16 DEB U20.
 Import ListNotations.
 Open Scope string_scope.
 Open Scope list_scope.
@@ -196,7 +196,7 @@ Definition show_entry (buf : str) (e : AR.entry) : str :=
   unwords [lit "("; hx (AR.e_name e); show_Z (AR.e_ts e); show_Z (AR.e_uid e); show_Z (AR.e_gid e);
            hx (AR.e_mode e); show_Z (AR.e_size e); d; lit "re"; d; lit ")"].
 Definition ar_open_z (buf : str) : option (list AR.entry * bool) :=
-  if GS.has_prefix AR2.magic buf then AR3.iterate_z (S (List.length buf)) buf 8 else None.
+  if GS.has_prefix AR2.magic buf then ARu.iterate_u (S (List.length buf)) buf 8 else None.
 Definition run_ar (op : string) (a : list str) : option str :=
   let g n := nth_arg n a in
   if op =? "ariter" then
